@@ -221,8 +221,23 @@ func (e *Exec) intModeBinop(op token.Token, a, b *Term, w int, signed bool) Valu
 			panic(goPanic{msg: "integer divide by zero"})
 		}
 		if signed {
-			// only non-negative operands supported in Int mode division
-			e.intObligation(c.And(c.intCmp("le", c.IntConst(0), a), c.intCmp("lt", c.IntConst(0), b)), "signed division operands non-negative")
+			// Go truncates towards zero; SMT-LIB div/mod round to the floor for a positive divisor.
+			// A positive divisor is required; a negative dividend is divided as its magnitude and the
+			// result negated (quotient and remainder both take the dividend's sign).
+			e.intObligation(c.intCmp("lt", c.IntConst(0), b), "signed division: divisor positive")
+			neg := c.intCmp("lt", a, c.IntConst(0))
+			if neg.IsConst() && neg.c.Sign() == 0 {
+				neg = nil
+			}
+			smt := "div"
+			if op == token.REM {
+				smt = "mod"
+			}
+			if neg == nil {
+				return c.intBin(smt, a, b)
+			}
+			minus := func(x *Term) *Term { return c.intBin("-", c.IntConst(0), x) }
+			return c.Ite(neg, minus(c.intBin(smt, minus(a), b)), c.intBin(smt, a, b))
 		}
 		if op == token.QUO {
 			return c.intBin("div", a, b)
